@@ -263,6 +263,7 @@ theorem pending_persists (s : St) (op : Op) (hb : BoundedOp op) (h4 : Inv04 s) (
   | block => exact Or.inl (h.of_packets rfl)
   | chanClose c => exact Or.inl (surv_ofM h (fun _ e => h.of_packets (frame_setChanClosed e).packets))
   | chanOpen c => exact Or.inl (surv_ofM h (fun _ e => h.of_packets (frame_setChanClosed e).packets))
+  | timeoutOnClose c seq => exact Or.inl (surv_ofM h (fun _ e => by unfold timeoutOnClose at e; split at e <;> cases e; exact h))
 
 theorem same_trans {p q r : Packet} (h1 : Same p q) (h2 : Same q r) : Same p r := by
   obtain ⟨a1, a2, a3⟩ := h1
